@@ -21,6 +21,12 @@ def run(tier):
         if r['ok']:
             r['res']['reports'] = [x for x in r['res']['reports'] if x.rule == 'R02.7']
     irrules.aggregate(ck, res7)
+    ck.floor('commits of a fresh block judged against the inline capacity (R02.7)',
+             sum(1 for r in res7 if r['ok'] for x in r['res']['reports'] if x.rule == 'R02.7'), 100 if tier == 'quick' else 1000)
+    rc = res_all.get('ir_ctor', [])
+    ck.floor('constructors walked for the clean-up rule (R04.7)', sum(x['res']['constructors'] for x in rc), 300 if tier == 'quick' else 3000)
+    ck.floor('constructors in which a callee installs state and the clean-up is present (R04.7)',
+             sum(1 for x in rc for y in x['res']['reports'] if y.ok), 6 if tier == 'quick' else 60)
     irrules.run_canaries(ck, {'ir_alloc': [('R04.1', 'canary_leak_on_throw'), ('R04.5', 'canary_free_inline')]},
                          silent=('canary_ok_alloc',))
     ck.assumptions += ['Allocator requirements: deallocate/copy/== do not throw',
